@@ -1182,6 +1182,10 @@ def gen_query(g, profile='query'):
         g, profile, n_target=r.choice([2, 3, 4, 5, 6, 8, 10]),
         force_worm=True if g.chance(0.45) else None,
         data_level=r.choice([None, None, None, 2, 0]))
+    if g.chance(0.15):
+        # names as users write them: blanks and dots ("stage.index")
+        for i_, e_ in enumerate(scn['elements']):
+            e_['name'] = f"{e_['kind'].lower()[:5]} {i_ // 2 + 1}.{i_ % 2 + 1}"
     mot0 = scn['elements'][0]
     if mot0['i0'] is not None and mot0['imax'] is not None and g.chance(0.08):
         # only one of the two optional currents: the current is not
@@ -1229,6 +1233,20 @@ def gen_query(g, profile='query'):
     add_control(g, scn, model, chain, p=0.4)
     if g.chance(0.3):
         add_stops(g, scn, model, chain, p=1.0)
+    if profile == 'tv' and g.chance(0.06):
+        # the user's own mistake in the middle of a history: a stop condition
+        # whose threshold is of another kind than the sensor reads ends a
+        # continuation with a TypeError at its first comparison; they drop it
+        # and go on.  What that run left behind must still be consistent
+        stops = scn.setdefault('stops', [])
+        stops.append({'sensor': 'encoder', 'target': chain[-1], 'op': 'gt',
+                      'thr': g.q('AngularSpeed', 1.0),
+                      'wrong_kind': 'AngularSpeed'})
+        bad = gen_run(g, k, n=r.randint(2, 6))
+        bad['stop'] = len(stops) - 1
+        bad['expect_failure'] = True
+        idx = next(i for i, o in enumerate(sched) if o['op'] == 'run') + 1
+        sched.insert(idx, bad)
     total_T = sum(run_T_si(op) for op in sched if op['op'] == 'run')
     last_T = 0.0
     for op in sched:
